@@ -93,8 +93,18 @@ pub fn kh_canon_cycles(s: &mut Src) -> R {
     let mirror = s.small(0, 1) == 1;
     let h = s.small(2, 3);
     let reduced = s.small(0, 1) == 1;
+    let plain = s.small(0, 2) == 0;
+    let rot = s.small(0, 5) as usize;
+    let relabel = s.u64();
     reach!();
-    let mut l = Link::from_pd_code(codes[which].iter().cloned());
+    // PD codes need not be numbered along the strand, and the first crossing need not carry the least label: relabel the edges by a
+    // pseudo-random injection into 0..40 and rotate the crossing list
+    let n_x = codes[which].len();
+    let mut map: Vec<usize> = (0..41).collect();
+    let mut st = relabel | 1;
+    for k in (1..41).rev() { st ^= st << 13; st ^= st >> 7; st ^= st << 17; map.swap(k, (st % (k as u64 + 1)) as usize); }
+    let code: Vec<[usize; 4]> = (0..n_x).map(|k| codes[which][(k + rot) % n_x].map(|e| if plain { e } else { map[e] })).collect();
+    let mut l = Link::from_pd_code(code);
     if mirror { l = l.mirror(); }
     let c = KhComplex::<i64>::new(&l, &h, &0, reduced);
     let zs = c.canon_cycles();
